@@ -218,6 +218,26 @@ def parse_time_count_rule(repo: Repo, rep: Report, rid: str) -> None:
     rep.floor(rid, "exempt define / enum sites", seen_exempt, 2)
 
 
+def array_count_fold_rule(repo: Repo, rep: Report, rid: str) -> None:
+    rep.rule(rid, "array length semantics of BaseArray, folded over the count kinds: x[n] asks the element type for exactly n elements (never a "
+                  "negative number), x[expr] for max(0, expr), x[] delegates to the null-terminated reader / writer, x[EOF] passes the EOF sentinel, an "
+                  "unknown name in the count raises; dumping a static array of another length (including an empty list) is refused")
+    from ..folds import fold_base_array
+
+    rd = repo.func("types/base.py", "BaseArray._read")
+    wr = repo.func("types/base.py", "BaseArray._write")
+    fold = fold_base_array(repo)
+    if fold is None:
+        rep.ok(rid, f"{rd.key}:fold", "not foldable with the evaluator's whitelist: the structural rules decide alone", rd.loc(), nontrivial=False)
+        return
+    bad = fold["read_bad"]
+    rep.check(not bad, rid, f"{rd.key}:fold", "9 count kinds give the expected request to the element type",
+              f"BaseArray._read for {bad[0][0] if bad else ''}: {bad[0][1] if bad else ''}, expected {bad[0][2] if bad else ''}", rd.loc())
+    bad = fold["write_bad"]
+    rep.check(not bad, rid, f"{wr.key}:fold", "6 (count kind, value length) cases: written through the right slot or refused",
+              f"BaseArray._write for {bad[0][0] if bad else ''}: {bad[0][1] if bad else ''}, expected {bad[0][2] if bad else ''}", wr.loc())
+
+
 def run(repo: Repo, rep: Report, tier: str) -> None:
     clamp_rule(repo, rep, "C07.R1")
     context_rule(repo, rep, "C07.R2")
@@ -236,6 +256,8 @@ def run(repo: Repo, rep: Report, tier: str) -> None:
 
     default_substitution_rule(repo, rep, "C07.R10")
     parse_time_count_rule(repo, rep, "C07.R11")
+    array_count_fold_rule(repo, rep, "C07.R12")
+
 
 
 
